@@ -10,7 +10,7 @@
     names.  [font_equiv] is the equality of the property: everything but the creator, numbers /
     colours under the part equalities, feature text up to line endings, stores byte-identical. *)
 Require Import Norad.Model.GlifSpec Norad.Model.GlifEncode Norad.Proofs.GlifEncodeP Norad.Proofs.GlifRoundtripP Norad.Proofs.GlifFullP.
-Require Import Norad.Model.Base Norad.Model.FontRT Norad.Model.FontToy Norad.Model.FontNum Norad.Model.FontRealInfo Norad.Model.FontReal
+Require Import Norad.Model.Base Norad.Model.FontRT Norad.Model.FontToy Norad.Model.FontNum Norad.Model.FontRealInfo Norad.Model.FontReal Norad.Model.FontRealPlist
                Norad.Proofs.FontRealInfoP
                Norad.Proofs.FontRTP Norad.Proofs.FontToyP Norad.Proofs.FontNumP Norad.Proofs.FontRealP.
 Open Scope N_scope.
@@ -168,3 +168,43 @@ Example C01_real_glyph_domain_inhabited : forall pf ff3, wf_glyph pf ff3 g_real_
 Proof. exact real_sample_wf. Qed.
 Example C01_real_info_domain_inhabited : wf_sinfo si_real_sample.
 Proof. exact si_real_sample_wf. Qed.
+
+(** ---------- metainfo.plist, layercontents.plist, contents.plist from the tree-level plist codec ----------
+    [with_plist_files pf ff fi K4] is a [codecs] whose three simplest files are no longer abstract
+    (Model/FontRealPlist.v): the file content is the XML tree of the plist; the writer is
+    [pv_node] of Model/GlifEncode.v (the tree plist::to_writer_xml produces) applied to the value
+    the serde shape of the file gives (MetaInfo: creator / formatVersion / formatVersionMinor, the
+    minor version left out when 0; layercontents: an array of [name, directory] pairs; contents: a
+    dictionary name -> file name); the reader is [pv_of] of Model/Plist.v followed by the
+    deserializer of that shape (formatVersion one of 1, 2, 3; layer and glyph names must be [Name]s;
+    contents goes into a BTreeMap).  Their round trip is PROVED from C02_lib_value_read_back
+    ([pv_read_back]); their equality is [eq].
+    Domains: metainfo with version 1..3 and a minor version below 2^32; layercontents whose names
+    are valid; contents sorted by glyph name (the BTreeMap order — the order norad's layer holds its
+    glyphs in) with valid names.  Inhabited: [C01_real_plist_file_domains_inhabited].
+
+    Hypotheses that remain in [codecs4_ok K4]: lawfulness of the lib, groups, kerning and layerinfo
+    codecs (arbitrary plist values / nested dictionaries of numbers: the value-level fact is the same
+    C02_lib_value_read_back; what is missing is the serde shape of Groups / Kerning / LayerInfo and,
+    for kerning, the integer-or-float writer of Model/Num.v), the two dictionary equalities, and
+    which keys / values / colours the writer represents.  Satisfiable: [C01_real_codecs4_satisfiable].
+    [L1_glif] supplies the float and integer text facts the plist reader needs. *)
+Theorem C01_real_plist_files_lawful : forall pf ff ff3 fi fh (K4 : codecs4),
+  L1_glif pf ff ff3 fi fh -> codecs4_ok K4 -> codecs_ok (with_plist_files pf ff fi K4).
+Proof. exact plist_files_lawful. Qed.
+Theorem C01_roundtrip_real_plist_files : forall pf ff ff3 fi fh (K4 : codecs4),
+  L1_glif pf ff ff3 fi fh -> codecs4_ok K4 ->
+  forall o (f : font (real_sig pf ff ff3 fi fh (with_plist_files pf ff fi K4))),
+  font_valid (real_sig pf ff ff3 fi fh (with_plist_files pf ff fi K4)) f ->
+  exists t, save (real_sig pf ff ff3 fi fh (with_plist_files pf ff fi K4)) o f = Ok t /\
+            spec_write (real_sig pf ff ff3 fi fh (with_plist_files pf ff fi K4)) norad_choices o f = Some t /\
+            exists f', load (real_sig pf ff ff3 fi fh (with_plist_files pf ff fi K4)) t = Ok f' /\
+                       font_equiv (real_sig pf ff ff3 fi fh (with_plist_files pf ff fi K4)) f f'.
+Proof. exact roundtrip_real_plist. Qed.
+Example C01_real_codecs4_satisfiable : codecs4_ok id_codecs4.
+Proof. exact id_codecs4_ok. Qed.
+Example C01_real_plist_file_domains_inhabited :
+  wf_meta {| m_creator := Some NORAD_CREATOR; m_version := 3; m_minor := 0 |} /\
+  wf_lc [([102;111;114;101], [103;108;121;112;104;115])] /\
+  wf_ct [([65], [65;95;46;103;108;105;102]); ([97], [97;46;103;108;105;102])].
+Proof. exact plist_files_domains_inhabited. Qed.
